@@ -42,7 +42,7 @@ def cases(tier, seed):
         M = R.choice([1, 2, 3, 6]) if N <= 4 else R.choice([1, 2, 3])
         out.append(dict(t="hist", fmt=fmt, mode=mode, N=N, M=M, layout=R.choice(["disjoint", "disjoint", "common"]),
                         pos=[R.choice([0, 1, 3]), 0, 0], maxdelay=R.choice([0.0, 0.005, 0.02]), seed=R.randrange(1 << 30),
-                        prior=R.choice(["none", "none", "file"]), mixfmt=(i % 3 == 0)))
+                        prior=R.choice(["none", "none", "file"]), mixfmt=(i % 3 == 0), longhold=(i % 5 == 2)))
     for i in range(3 if tier == "quick" else 40):
         out.append(dict(t="sampling", fmt=R.choice(["npy", "fits", "png"]), depth=R.choice([1, 1, 2]), seed=R.randrange(1 << 30), parts=R.choice([2, 3])))
     for s in out:
@@ -118,8 +118,23 @@ def _observe(spec, arr, total):
     return int(blk[0, 0]), torn
 
 
+def _dilate_monotonic_clocks(factor):
+    """virtual time for lock time-outs: perf_counter/monotonic run `factor` times faster in this process, so that a
+    holder that stays 0.3 s inside the critical section has held it for minutes on the clock a lock time-out reads.
+    (time.time is left alone: filelock compares it with file mtimes.)"""
+    import time as _t
+
+    for name in ("perf_counter", "monotonic"):
+        real = getattr(_t, name)
+        t0 = real()
+        setattr(_t, name, (lambda real=real, t0=t0: t0 + (real() - t0) * factor))
+
+
 def _updater(spec, base, idx, go_path):
     from toasty.pyramid import Pos, PyramidIO
+
+    if spec.get("longhold"):
+        _dilate_monotonic_clocks(300.0)
 
     pio = PyramidIO(base, default_format=spec["fmt"])
     pos = Pos(*spec["pos"])
@@ -139,6 +154,8 @@ def _updater(spec, base, idx, go_path):
                 evlog.ev("upd_observed", cid=cid, obs=obs, torn=torn)
                 if spec["maxdelay"]:
                     time.sleep(R.random() * spec["maxdelay"])
+                if spec.get("longhold") and idx == 0 and j == 0:
+                    time.sleep(0.35)  # = 105 s of dilated monotonic time
                 img.update_into_maskable_buffer(basis, slice(None), slice(None), slice(None), slice(None))
                 evlog.ev("upd_body_done", cid=cid)
             evlog.ev("upd_ret", cid=cid)
@@ -168,6 +185,15 @@ def chain_check(spec, recs, final):
             obs[r["cid"]] = r["obs"]
             for t in r.get("torn") or []:
                 v.append(("torn-read", "updater of contribution %d saw: %s" % (r["cid"], t)))
+    # mutual exclusion at the hook: nobody enters the critical section while another updater is between enter and body_done
+    inside = None
+    for r in recs:
+        if r["k"] == "upd_enter":
+            if inside is not None and inside != r["cid"]:
+                v.append(("two-updaters-inside", "update of contribution %d entered the locked region while the update of contribution %d was still inside it" % (r["cid"], inside)))
+            inside = r["cid"]
+        elif r["k"] in ("upd_body_done", "upd_exc") and inside == r.get("cid"):
+            inside = None
     done = {r["cid"] for r in recs if r["k"] == "upd_ret"}
     if len(done) != total:
         v.append(("update-incomplete", "%d of %d updates completed" % (len(done), total)))
